@@ -663,7 +663,8 @@ func (c *Conn) heartBeat(ctx context.Context) {
 		case error:
 			// TODO: should we do something here?
 		default:
-			panic(fmt.Sprintf("gocql: unknown frame in response to options: %T", resp))
+			c.closeWithError(fmt.Errorf("gocql: unknown frame in response to options: %T", resp))
+			return
 		}
 	}
 }
